@@ -18,8 +18,8 @@ P = "C07"
 
 def _params_int(tier):
     # stripes over the magnitude: |v| < 2^(8k) ... keeps every job small; union = [-2^B, 2^B]
-    B = 72 if tier == "quick" else 1032
-    step = 8 if tier == "quick" else 48
+    B = 72 if tier == "quick" else 264
+    step = 8 if tier == "quick" else 24
     out = []
     lo = 0
     while lo < B:
@@ -28,7 +28,7 @@ def _params_int(tier):
     return out
 
 
-@harness(P, params=_params_int, bounds="INTEGER/ENUMERATED value v with 2^lo_bits <= |v|+1 <= 2^hi_bits, stripes cover |v| <= 2^72 (quick) / 2^1032 (thorough: past the one- and two-octet DER length forms); "
+@harness(P, params=_params_int, bounds="INTEGER/ENUMERATED value v with 2^lo_bits <= |v|+1 <= 2^hi_bits, stripes cover |v| <= 2^72 (quick) / 2^264 (thorough); "
          "tag: default, or context-specific primitive [n] with n symbolic in [0,2^32)", outside="|v| beyond the stated range",
          must_reach=("int: encoding is minimal DER", "int: read back"))
 def int_roundtrip(c, lo_bits, hi_bits):
@@ -244,3 +244,71 @@ def tlv_symlen(c, hi):
     v, used = c.call(_asn1._validate_tag, both, tag, tag)
     c.check(all_of([used == total, v == content]), "symbolic length: consumes exactly")
     return True
+
+
+# operation histories on ONE reader over the stream  V1 = OCTET STRING (n1 octets), V2 = INTEGER a, V3 = UTF8String "hi":
+# "p" peek_header, "s" skip_value(last peeked header), "o"/"i"/"u" read_octet_string / read_integer / read_utf8_string, "r" get_remaining_data, "b" bool(reader)
+READER_HISTORIES = ["psp", "pspsp", "ppopip", "psppiu", "opsu", "pspr", "prb", "oprb", "psipub", "popspsb", "ppspspb"]
+
+
+@harness(P, per_job=True, params=lambda tier: [dict(hist=h, n1=n) for h in READER_HISTORIES for n in ([0, 2, 130] if tier == "quick" else [0, 1, 2, 127, 128, 130, 256, 300])], max_steps=400000,
+         raises=(), bounds="histories of peek_header / skip_value / read_* / get_remaining_data / bool on one ASN1Reader (11 listed histories of up to 7 operations) over a stream of three values "
+         "whose first has a listed length (short and long length forms) and symbolic content and whose second is a symbolic INTEGER: every operation acts on the value at the "
+         "reader's current position - a peek returns the header of the next unread value, a read returns that value, the remaining data is exactly the unread rest",
+         outside="other histories and streams", must_reach=("reader history: every operation acted at the current position",))
+def reader_histories(c, hist, n1):
+    o1 = c.bytes("o1", n1) if n1 <= 8 else refs.cat(c.bytes("o1_head", 4), bytes(n1 - 8), c.bytes("o1_tail", 4))
+    a = c.int("a", -(1 << 40), 1 << 40)
+    vals = [refs.der_tlv(0, False, 4, o1), refs.der_tlv(0, False, 2, refs.der_int_content(a)), refs.der_tlv(0, False, 12, b"hi")]
+    contents = [o1, None, b"hi"]
+    stream = refs.cat(*vals)
+
+    def run(data):
+        r = _asn1.ASN1Reader(data)
+        obs = []
+        last = None
+        for op in hist:
+            if op == "p":
+                last = r.peek_header()
+                obs.append(("p", last.tag.tag_number, last.tag_length, last.length))
+            elif op == "s":
+                r.skip_value(last)
+                obs.append(("s",))
+            elif op == "o":
+                obs.append(("o", r.read_octet_string()))
+            elif op == "i":
+                obs.append(("i", r.read_integer()))
+            elif op == "u":
+                obs.append(("u", r.read_utf8_string()))
+            elif op == "r":
+                obs.append(("r", r.get_remaining_data()))
+            else:
+                obs.append(("b", bool(r)))
+        return obs
+
+    obs = c.interpret(run, stream)
+    # reference: a cursor over the three values
+    pos, ok = 0, []
+    for op, ob in zip(hist, obs):
+        if op == "p":
+            hdr_len = len(vals[pos]) - (len(contents[pos]) if contents[pos] is not None else len(refs.der_int_content(a)))
+            body_len = len(vals[pos]) - hdr_len
+            ok.append(all_of([ob[1] == (4, 2, 12)[pos], ob[2] == hdr_len, ob[3] == body_len]))
+        elif op == "s":
+            pos += 1
+        elif op == "o":
+            ok.append(pos == 0 and refs.cat(ob[1]) == o1)
+            pos += 1
+        elif op == "i":
+            ok.append(pos == 1 and ob[1] == a)
+            pos += 1
+        elif op == "u":
+            ok.append(pos == 2 and ob[1] == "hi")
+            pos += 1
+        elif op == "r":
+            ok.append(refs.cat(ob[1]) == refs.cat(*vals[pos:]) if pos < 3 else len(ob[1]) == 0)
+            pos = 3
+        else:
+            ok.append(ob[1] == (pos < 3))
+    c.check(all_of([x if isinstance(x, (bool, V.SymBool)) else bool(x) for x in ok]), "reader history: every operation acted at the current position")
+    return len(obs)
